@@ -63,6 +63,76 @@ def _stmt_of(n):
     return n
 
 
+def _butterworth(ck: Checker, prog: Program):
+    """TimeSeries.butterworth_filter as a decision table over which corners are given: the samples become
+    sosfiltfilt(butter(order, corners, type, fs=self.fs, output='sos'), samples) - designed on this call, for this series."""
+    from ..pathtable import PathTable, consistent
+    from .common import engine
+    bf = prog.func("timeseries.TimeSeries.butterworth_filter")
+    q = bf.qualname
+    if bf.params[:3] != ["self", "fcs_in_hz", "order"]:
+        raise AnalysisError(f"{q}: parameters are {bf.params}")
+    for nm in ("sosfiltfilt", "butter"):
+        r = prog.resolve_name(bf.module, nm)
+        if not (r is not None and r[0] == "ext" and r[1].startswith("scipy.signal") and r[1].endswith(nm)):
+            ck.violation("C10.R1", q, "zero-phase filter", f"`{nm}` is not scipy.signal.{nm}", loc=bf.loc())
+            return
+    F = sp.Function
+
+    SIGS = {"butter": ["N", "Wn", "btype", "analog", "output", "fs"], "sosfiltfilt": ["sos", "x", "axis", "padtype", "padlen"]}   # scipy.signal
+
+    def hook(call, T):
+        if isinstance(call.func, ast.Name) and call.func.id in SIGS:
+            b = bind_call(call, SIGS[call.func.id])
+            return F(call.func.id)(*[T.tr(b[p_]) if p_ in b else sp.Symbol("<default>") for p_ in SIGS[call.func.id]])
+        return None
+    leaves = PathTable(prog, bf.module, call_hook=hook, unroll=True).leaves(bf.node.body)
+    R_ = lambda n: sp.Symbol(n, real=True)   # noqa: E731
+    FCS, ORD, AMP, FS, NONE = R_("fcs_in_hz"), R_("order"), R_("self.amplitude"), R_("self.fs"), sp.Symbol("None")
+    gi = F("getitem")
+    LO, HI = gi(FCS, sp.Integer(0)), gi(FCS, sp.Integer(1))
+    GIVEN = sp.Symbol("'<given>'")
+    problems = []
+    n = 0
+    for lo_given in (False, True):
+        for hi_given in (False, True):
+            world = {LO: GIVEN if lo_given else NONE, HI: GIVEN if hi_given else NONE}
+            live = [l for l in leaves if consistent(l, world) and l.exit != "raise"]
+            if not live:
+                raise AnalysisError(f"{q}: no path when the corners are {world}")
+            n += 1
+            for l in live:
+                store = None
+                for e in l.events:
+                    if e[0] == "store" and e[1] == "self.amplitude":
+                        store = e[2]
+                if not lo_given and not hi_given:
+                    if store is not None:
+                        problems.append("samples are filtered although no corner is given")
+                    continue
+                kind, wn = (("'bandpass'", sp.Tuple(LO, HI)) if lo_given and hi_given else ("'highpass'", LO) if lo_given else ("'lowpass'", HI))
+                DF = sp.Symbol("<default>")
+                want = F("sosfiltfilt")(F("butter")(ORD, wn, sp.Symbol(kind), DF, sp.Symbol("'sos'"), FS), AMP, DF, DF, DF)
+                if store is None:
+                    problems.append(f"no filtering for corners {kind}")
+                elif store != want:
+                    problems.append(f"samples <- {store}; expected {want}")
+    if not problems:
+        ck.ok("C10.R1", q, "self.amplitude = sosfiltfilt(butter(order, corners, type, fs=self.fs, output='sos'), self.amplitude)",
+              detail=f"{n} corner combinations; forward-backward (zero-phase) filtering of the whole series, designed for this series on this call")
+    else:
+        ck.violation("C10.R1", q, "zero-phase filter", "; ".join(sorted(set(problems))[:2]), loc=bf.loc())
+    # no state kept between calls (a remembered design would be applied to a series with another sampling rate)
+    eng = engine(prog)
+    s = eng.summary(bf)
+    glob = [e for e in s.effects if e.origin[0] == "G"]
+    if not glob:
+        ck.ok("C10.R1", q, "no module-level state is written", nontrivial=False)
+    else:
+        from .common import describe_effect
+        ck.violation("C10.R1", q, "module state", f"the filter step writes module-level state ({describe_effect(glob[0])}): what one series leaves behind is used for the next", loc=bf.loc())
+
+
 def _wiring_table(ck: Checker, prog: Program, f, fq: str, lp: ast.For, rec: str):
     """One pass of the per-record loop as a decision table over the settings: which steps run, on what, with which values."""
     from ..pathtable import PathTable, consistent, pick
@@ -205,21 +275,7 @@ def _r1(ck: Checker, prog: Program):
     else:
         ck.violation("C10.R1", fq, "collection of windows", "the windows of every record are not collected in order", loc=f.loc(lp))
     # zero-phase filter
-    bf = prog.func("timeseries.TimeSeries.butterworth_filter")
-    stores = [st for st in own_nodes(bf.node) if isinstance(st, ast.Assign) and unparse(st.targets[0]) == "self.amplitude"]
-    good = len(stores) == 1 and isinstance(stores[0].value, ast.Call) and call_name(stores[0].value) == "sosfiltfilt" \
-        and len(stores[0].value.args) == 2 and unparse(stores[0].value.args[1]) == "self.amplitude"
-    r = prog.resolve_name(bf.module, "sosfiltfilt")
-    good = good and r is not None and r[0] == "ext" and r[1].endswith("sosfiltfilt")
-    if good:
-        ck.ok("C10.R1", bf.qualname, norm_key(stores[0]), detail="forward-backward (zero-phase) filtering of the whole series")
-    else:
-        ck.violation("C10.R1", bf.qualname, "zero-phase filter", "the samples are not filtered with scipy.signal.sosfiltfilt (zero phase)", loc=bf.loc())
-    bt = [c for c in calls_in(bf.node, "butter")]
-    if len(bt) == 1 and kwarg(bt[0], "fs") is not None and unparse(kwarg(bt[0], "fs")) == "self.fs" and unparse(kwarg(bt[0], "output")) == "'sos'":
-        ck.ok("C10.R1", bf.qualname, norm_key(bt[0]), nontrivial=False)
-    else:
-        ck.violation("C10.R1", bf.qualname, "filter design", "butter() is not designed for this series' sampling rate with sos output", loc=bf.loc())
+    ck.guard(_butterworth, ck, prog)
     # component-wise methods visit all three components
     from .common import check_componentwise
     for name in ("butterworth_filter", "detrend", "trim", "window"):
